@@ -16,6 +16,7 @@
 -/
 import FerrousSpec.Proofs.ScanIter
 import FerrousSpec.Proofs.ScanGlob
+import FerrousSpec.Proofs.ScanGlobRefine
 import FerrousSpec.Proofs.ScanKeyCursor
 import FerrousSpec.Gen.ScanConsts
 namespace Ferrous.C19
@@ -253,6 +254,47 @@ theorem match_prefix_star (pre key : Bytes) (hp : ∀ x ∈ pre, plain x ∧ x <
   rw [decodeLossy_ascii _ hpa, decodeLossy_ascii key hk]
   exact globChars_prefix_star pre key (fun x hx => (hp x hx).1)
 
+/-- **The matcher computes glob semantics** on every pattern of the agreed fragment — any mix of
+    literals, `?`, `*` (any number), classes, negated classes, ranges and escapes that
+    `Spec.tokenize` accepts — and every text: the single-star backtracking loop of engine.rs gives
+    the verdict of the textbook recursive matcher over the same characters. -/
+theorem match_refines_glob (p t : List Nat) (toks : List Spec.Tok) (h : Spec.tokenize p = some toks) :
+    Code.globChars p t = Spec.matchToks toks t :=
+  globChars_eq_matchToks p t toks h
+
+/-- Hence, over bytes: when pattern and key are ASCII and the pattern is in the agreed fragment,
+    MATCH accepts the key exactly when glob matching over bytes does.  (Exclusions: a byte
+    ≥ 0x80 on either side — see `match_sound_fails_on_invalid_utf8`; a pattern outside the
+    fragment — see `match_quirks_outside_fragment`.) -/
+theorem match_refines_partial (pat key : Bytes) (hp : ∀ b ∈ pat, b < 128) (hk : ∀ b ∈ key, b < 128)
+    (toks : List Spec.Tok) (hw : Spec.tokenize pat = some toks) :
+    Spec.matchBytes pat key = some (Code.matchBytes pat key) := by
+  unfold Spec.matchBytes Code.matchBytes
+  rw [decodeLossy_ascii pat hp, decodeLossy_ascii key hk, hw, globChars_eq_matchToks pat key toks hw]
+  rfl
+
+/-- Soundness against the prescribed filter: under the same two conditions every key returned by
+    a SCAN call with `MATCH pat` satisfies the glob pattern over bytes. -/
+theorem scan_sound_glob_partial (g : Cfg) (hg : g.ok) (db : Db) (cursor count : Nat) (pat : Bytes) (ty : Option Bytes)
+    (k : Bytes) (hk : k ∈ (Code.scan g db cursor count (some pat) ty).2)
+    (hp : ∀ b ∈ pat, b < 128) (hka : ∀ b ∈ k, b < 128) (toks : List Spec.Tok) (hw : Spec.tokenize pat = some toks) :
+    Spec.matchBytes pat k = some true := by
+  have := (scanSorted_mem g (Code.matchOpt (some pat)) hg (view ty db) cursor count k hk).2
+  rw [match_refines_partial pat k hp hka toks hw]
+  simpa [Code.matchOpt] using this
+
+/-- Outside the fragment the matcher has quirks of its own (none of them is a C19 violation; the
+    patterns have no agreed meaning): an unclosed `[` never matches, not even the key `[`; `[abc`
+    does not match `a`; `\` is not an escape inside a class, so `[\]]` does not match `]`; a
+    reversed range `[z-a]` is empty; in `[a-]` the `-` is a member. -/
+theorem match_quirks_outside_fragment :
+    Spec.tokenize [91] = none ∧ Code.globChars [91] [91] = false ∧
+    Spec.tokenize [91, 97, 98, 99] = none ∧ Code.globChars [91, 97, 98, 99] [97] = false ∧
+    Spec.tokenize [91, 92, 93, 93] = none ∧ Code.globChars [91, 92, 93, 93] [93] = false ∧
+    Spec.tokenize [91, 122, 45, 97, 93] = none ∧ Code.globChars [91, 122, 45, 97, 93] [98] = false ∧
+    Spec.tokenize [91, 97, 45, 93] = none ∧ Code.globChars [91, 97, 45, 93] [45] = true := by
+  decide
+
 /-- **MATCH is not sound over bytes.**  Pattern and key are decoded lossily, so the literal
     pattern `\xff` accepts the different key `\xfe` (both become U+FFFD), which glob matching
     over bytes rejects; and `?` accepts the two-byte key `é`. -/
@@ -286,5 +328,9 @@ example : Spec.iterAfter (fun _ => true) 1 none [[[97], [98], [99]], [[98], [99]
   decide
 
 example : Code.matchBytes [117, 115, 101, 114, 58, 42] [117, 115, 101, 114, 58, 49, 48] = true := by decide
+
+-- a pattern of the agreed fragment with a negated class, a range, an escape and two stars
+example : Spec.tokenize [42, 91, 94, 97, 45, 99, 120, 93, 92, 42, 63, 42] =
+    some [.star, .cls true [(97, 99), (120, 120)], .lit 42, .any, .star] := by decide
 
 end Ferrous.C19
